@@ -164,6 +164,7 @@ class Extractor:
         self.package = modname if info["pkg"] else modname.rpartition(".")[0]
         self.env = {"__name__": modname, "__package__": self.package}
         self.notes = []
+        self.dynamic = False
         self.future_annotations = False
         self.importlib_names = set()      # names bound to the importlib module
         self.import_module_names = set()  # names bound to importlib.import_module
@@ -220,6 +221,8 @@ class Extractor:
                 out += self.uses(node.elt, sh)
             return out
         if isinstance(node, ast.Call):
+            if isinstance(node.func, ast.Name) and node.func.id in ("globals", "locals", "vars", "exec", "eval", "setattr", "delattr"):
+                self.dynamic = True     # may bind names behind the translator's back
             out += self.uses(node.func, shadow)
             for a in node.args:
                 out += self.uses(a, shadow)
@@ -593,11 +596,13 @@ def walk_events(evs):
 def build(repo):
     """the whole graph as a JSON-able dict"""
     mods = discover(repo)
-    bodies, notes = {}, []
+    bodies, notes, dynamic = {}, [], []
     for m in sorted(mods):
         ex = Extractor(m, mods[m], mods)
         bodies[m] = ex.run()
         notes += ex.notes
+        if ex.dynamic:
+            dynamic.append(m)
     domain = sorted(m for m in mods if mods[m]["path"] is not None)
 
     def is_ioflo(name):
@@ -756,6 +761,7 @@ def build(repo):
                                   "body": evs, "fail": None}
     return {"nodes": graph_nodes, "domain": domain, "preloaded": preloaded, "idents": sorted(idents),
             "builtins": [b for b in base["builtins"] if b in idents], "notes": sorted(set(notes)),
+            "dynamic": dynamic,
             "python": sys.version.split()[0]}
 
 
@@ -913,6 +919,16 @@ def lean_text(g):
                    mask(lambda s_: s_ in bset, 0, len(idents)), n_mn, n_rel, len(idents) - n_rel,
                    mask(lambda s_: not s_.startswith("_"), 0, n_rel), mask(lambda s_: not s_.startswith("_"), n_rel, len(idents)),
                    iid["__path__"], iid["__all__"], L(str(nid[m]) for m in g["domain"])))
+    dom = [nid[m] for m in g["domain"]]
+    NCH = 8
+    out.append("/-- the domain dealt round-robin into %d chunks (table theorems are proved per chunk, in parallel) -/" % NCH)
+    out.append("def domainChunks : List (List Mod) := %s" % L(L(str(x) for x in dom[c::NCH]) for c in range(NCH)))
+    out.append("/-- the top-level package of the tree under test -/")
+    out.append("def root : Mod := %d" % nid["ioflo"])
+    out.append("namespace Mid")
+    for m in g["domain"]:
+        out.append("def «%s» : Mod := %d" % (m, nid[m]))
+    out.append("end Mid")
     out.append("")
     out.append("def modNames : Array String := #%s" % L(json.dumps(n) for n in names))
     out.append("def identNames : Array String := #%s" % L(json.dumps(n, ensure_ascii=True) for n in idents))
